@@ -75,8 +75,8 @@ def run(ck, F, tier):
         dims_ok = matrix_dims(hv) == (Rr, Cc)
         dest_kind = None
         da = single_atom(dest) if isinstance(dest, Poly) else None
-        if da and da[0] == "v" and da[1].startswith("k@"):
-            dest_kind = "write-pointer"
+        if da and da[0] == "v" and "@" in da[1]:
+            dest_kind = "write-pointer"      # a loop-carried local (whatever its name)
         else:
             for l in ins["loops"]:
                 if l[0] == "range" and dest == Cc - Rr + var(l[1]) and l[2] == num(0) and l[3] == Rr:
@@ -85,8 +85,8 @@ def run(ck, F, tier):
                 "insert(row = %r, col = %r): rows come from input column %r, destination is the %s" % (u, dest, scol, dest_kind))
     # k += 1 once per free-column write: the arith sites `k + 1`
     incs = [s for s in sites if s["kind"] == "arith" and s["detail"] == "Add" and s["fn"] == FN and s["vals"][1] == num(1)
-            and isinstance(s["vals"][0], Poly) and repr(s["vals"][0]).startswith("k@")]
-    freew = [ins for ins in inserts if repr(ins["vals"][2]).startswith("k@")]
+            and isinstance(s["vals"][0], Poly) and any(s["vals"][0] == ins["vals"][2] for ins in inserts)]
+    freew = [ins for ins in inserts if single_atom(ins["vals"][2]) is not None and single_atom(ins["vals"][2])[0] == "v" and "@" in single_atom(ins["vals"][2])[1]]
     okk = len(incs) == len(freew) and all(
         any(repr(inc["loops"]) == repr(w["loops"][:-1]) and
             repr([g for g in inc["guards"]]) == repr([g for g in w["guards"]]) for inc in incs) for w in freew)
